@@ -84,3 +84,21 @@ def first_diff(a, b):
         if x != y:
             return "event %d: real=%r model=%r" % (i, x, y)
     return "length: real=%d model=%d events" % (len(ea), len(eb))
+
+
+SEM_KINDS = ("lower_flat", "lower_to_memory", "lift_from_memory", "dealloc", "post_return")
+
+
+def sem_items(index, pws=(4, 8), nvals=6, seed=1):
+    """index entries (ti, fname, sig, label, real_dump) -> SEM protocol lines for the statement checks"""
+    lines, meta = [], []
+    for (ti, fname, sig, label, d) in index:
+        kind = label.split(".")[0]
+        if kind not in SEM_KINDS or d.startswith("PANIC"):
+            continue
+        if kind == "post_return" and "(result _)" in sig:
+            continue
+        for pw in pws:
+            lines.append("SEM\x1d%s\x1d%d\x1d%d\x1d%d\x1d%s\x1d%s" % (label, pw, nvals, (seed * 7919 + len(lines)) & 0x3fffffff, sig, d))
+            meta.append((ti, fname, sig, label, pw, d))
+    return lines, meta
